@@ -92,7 +92,8 @@ static bstr *c14_piece_alloc(const unsigned char *data, size_t len, size_t maxle
  * read again once the tail of the chunk has been stored (asserted), and c14_nslots stays a constant for symex when the
  * call starts without pieces. */
 static bstr *c14_new;
-#define C14_NO_READ_AFTER_STORE() VASSERT(g14_app_n == 0, "the set-aside store is not read again after the tail of the chunk has been stored")
+static int g14_app_failed;                      /* the set-aside copy of THIS call failed (allocation failure, C18) */
+#define C14_NO_READ_AFTER_STORE() VASSERT(g14_app_n == 0 || g14_app_failed, "the set-aside store is not read again after the tail of the chunk has been stored")
 size_t c14_bb_size(const bstr_builder_t *bb) { C14_NO_READ_AFTER_STORE(); return c14_nslots; }
 size_t c14_list_size(const htp_list_t *l) { C14_NO_READ_AFTER_STORE(); return c14_nslots; }
 void *c14_list_get(const htp_list_t *l, size_t idx) { C14_NO_READ_AFTER_STORE(); return idx < c14_nslots ? c14_slot[idx] : NULL; }
@@ -119,12 +120,9 @@ htp_status_t c14_bb_append_mem(bstr_builder_t *bb, const void *data, size_t len)
     g14_app_n++;
     if (bb != &c14_bb || g14_app_n > 1 || len > N) return HTP_ERROR;           /* flagged by the replay */
     bstr *b = c14_piece_alloc(d, len, N, 0);
-#ifdef KNOWN_F_C14_APPEND_FAIL
-    /* F-C14-APPEND (C18): the parser ignores a failed set-aside copy (htp_multipart.c:1278); the bytes are lost and
-     * boundary_candidate_pos then indexes past a LATER piece (native: notes/c14.md).  Excluded: allocation failure here. */
-    VASSUME(b != NULL);
-#endif
-    if (b == NULL) return HTP_ERROR;
+    /* allocation failure of the set-aside copy (C18): the parser must report it and forget the candidate whose position refers
+     * to the lost bytes (fixed in /repo; before the fix boundary_candidate_pos later indexed past a shorter piece, notes/c14.md F3) */
+    if (b == NULL) { g14_app_failed = 1; return HTP_ERROR; }
     c14_new = b;
     return HTP_OK;
 }
@@ -303,7 +301,7 @@ static void c14_parse_harness(vin_t in) {
     }
     /* ---------- ghost log ---------- */
     g14_chunk = chunk; memcpy(g14_c, in.chunk, N); memcpy(g14_b, in.bnd, BL);
-    g14_hi = 0; g14_nb = 0; g14_app_n = 0; c14_event_init(in.state);
+    g14_hi = 0; g14_nb = 0; g14_app_n = 0; g14_app_failed = 0; c14_event_init(in.state);
     g14_bmp0 = in.bmp; g14_cr0 = (int) in.cr; g14_np0 = in.np; g14_modeseq = in.modeseq; g14_calls = 0;
     int outcome = (in.state == STATE_BOUNDARY) ? ref_candidate(in.bnd, BL, in.bmp, in.chunk, N) : -1;
     g14_carried = (outcome == REF_CAND_MATCH);
@@ -312,6 +310,19 @@ static void c14_parse_harness(vin_t in) {
     htp_status_t rc = htp_mpartp_parse(p, chunk, N);
 
     if (c14_new != NULL && c14_nslots <= PMAX) { c14_slot[c14_nslots] = c14_new; c14_nslots++; }   /* the piece stored by this call */
+    if (g14_app_failed) {
+        /* ---------- C18: the set-aside copy failed: error reported, bytes lost (degraded), WF re-established without an open candidate ---------- */
+        VASSERT(rc == HTP_ERROR, "a failed set-aside copy is reported as HTP_ERROR");
+        VASSERT(p->parser_state >= STATE_DATA && p->parser_state <= STATE_BOUNDARY_EAT_LWS_CR && p->parser_state != STATE_BOUNDARY,
+                "WF' after a failed set-aside copy: no candidate stays open (its position would refer to lost bytes)");
+        VASSERT(c14_nslots == 0 && c14_new == NULL, "WF' after a failed set-aside copy: nothing stays stored");
+        VASSERT(p->cr_aside == 0 || (p->cr_aside == 1 && p->parser_state == STATE_DATA), "WF' after a failed set-aside copy: cr_aside");
+        VASSERT(p->multipart.boundary == bnd && p->multipart.boundary_len == BL, "delimiter string untouched");
+#ifdef VNATIVE
+        g14_app_n = 0; c14_bb_clear(&c14_bb); free(chunk); free(bnd);
+#endif
+        return;
+    }
     /* ---------- WF again ---------- */
     VASSERT(rc == HTP_OK, "parse returns HTP_OK");
     VASSERT(p->parser_state >= STATE_DATA && p->parser_state <= STATE_BOUNDARY_EAT_LWS_CR, "WF': parser_state in range");
